@@ -349,6 +349,8 @@ def corpus():
                                             '#[typeshare]\npub type L1 = Option<C1>;\n#[typeshare]\npub struct N1(C2);\n'})
     mk('nested-tree-wrong-base', {'a/src/lib.rs': A, 'x/src/lib.rs': '#[typeshare]\npub struct X1 { pub x: u8 }\n',
                                   'b/src/lib.rs': 'use a::x::{y::A1, z::{A3}};\nuse x::a::X1;\n#[typeshare]\npub struct B1 { pub f: A1, pub g: A3, pub h: X1 }\n'})
+    mk('glob-const', {'k/src/lib.rs': '#[typeshare]\npub struct K1 { pub x: u8 }\n#[typeshare]\npub const MyConst: u32 = 1;\n',
+                      'my-crate/src/lib.rs': 'use k::*;\nuse k::K1;\n#[typeshare]\npub struct B1 { pub f: K1 }\n'}, order=True, reps=12)
     mk('generic-param-not-a-reference', {'a/src/lib.rs': '#[typeshare]\npub struct U { pub x: u8 }\n', 'b/src/lib.rs': 'use a::U;\n#[typeshare]\npub struct B1<U> { pub f: U }\n'})
     return out
 
@@ -419,8 +421,9 @@ def decode_model(m):
     spec = {'paths': [([vf.unS(c) for c in p], sx_opt(o, vf.unS)) for p, o in sp['paths']],
             'crates': [{'crate': vf.unS(c), 'file': vf.unS(f), 'conventional': conv == 'true', 'defs': [vf.unS(x) for x in defs]} for c, f, conv, defs in sp['crates']],
             'judge': {}}
-    for c, good, unsound, refs in sp['judge']:
+    for c, good, unsound, refs, consts in sp['judge']:
         spec['judge'][vf.unS(c)] = {'good': good == 'true', 'unsound': [(vf.unS(a), vf.unS(b)) for a, b in unsound],
+                                    'const_imports': [(vf.unS(a), vf.unS(b)) for a, b in consts],
                                     'refs': [{'name': vf.unS(n), 'from': vf.unS(fr), 'generated': vf.unS(g), 'imported': imp == 'true',
                                               'elsewhere': [vf.unS(x) for x in els], 'dom': dom == 'true', 'known': sx_opt(kn)} for n, fr, g, imp, els, dom, kn in refs]}
     return {'status': status, 'files': files, 'spec': spec}
@@ -571,8 +574,11 @@ def run(chk):
                 # every definition sits in the file of the crate that contains its source
                 if lang == 'typescript':
                     for c in spec['crates']:
-                        here = {nm for _, nm in definitions(lang, impl['files'].get(c['file'], ''))}
-                        miss = [d for d in c['defs'] if d not in here and d.upper() not in here]
+                        found = definitions(lang, impl['files'].get(c['file'], ''))
+                        here = {nm for _, nm in found}
+                        # a const is written under the SCREAMING_SNAKE_CASE of its generated name
+                        consts = {nm.replace('_', '') for kind, nm in found if kind == 'const'}
+                        miss = [d for d in c['defs'] if d not in here and d.replace('_', '').upper() not in consts]
                         if miss and len(spec_files) == len(spec['crates']):
                             bad.append((f'{c["file"]} lacks the definitions {miss} of crate {c["crate"]}', None))
                 # --- (iii) imports: spec on the OBSERVED pairs
@@ -600,7 +606,9 @@ def run(chk):
                             for mod, nm in imports_of(lang, text):
                                 target = impl['files'].get(mod + '.ts')
                                 if target is None or nm not in {x for _, x in definitions(lang, target)}:
-                                    bad.append((f'{fname} imports {nm} from ./{mod} which does not define it', None))
+                                    # a const of the module, imported under its generated name (written in SCREAMING_SNAKE_CASE)?
+                                    known_const = (mod, nm) in spec['judge'].get(fname.rsplit('.', 1)[0], {}).get('const_imports', [])
+                                    bad.append((f'{fname} imports {nm} from ./{mod} which does not define it', 'C14-glob-const' if known_const else None))
             # --- equality with the model (per file: some evaluated order must give exactly these bytes)
             equal = True
             model_status_rc = {'ok': 0, 'err': 1, 'parse_errors': 1}.get(m0['status'])
